@@ -298,6 +298,9 @@ func (x *c12World) apply(op string, check bool) bool {
 		if zero {
 			fs = append(fs, ref.F32(ref.FChatID, 0))
 		}
+		if len(msg) > 4000 { // long lines are sent with the short fields first (both orders are legal)
+			fs = append(fs[1:], fs[0])
+		}
 		req(k, ref.TChatSend, fs...)
 		settle()
 		if c12CanSend[k] {
@@ -407,6 +410,9 @@ func (x *c12World) apply(op string, check bool) bool {
 		fs := []ref.Fld{ref.FS(ref.FData, msg), ref.F(ref.FChatID, c.id)}
 		if emote {
 			fs = append(fs, ref.F16(ref.FChatOptions, 1))
+		}
+		if len(msg) > 4000 {
+			fs = append(fs[1:], fs[0])
 		}
 		req(k, ref.TChatSend, fs...)
 		settle()
